@@ -267,12 +267,26 @@ def from_utf8(e, c, a):
 @model(r"^String::from_utf8_lossy$")
 def from_utf8_lossy(e, c, a):
     l, lo, hi = e.seq_of(a[0])
-    for x in l[lo:hi]:
-        if x.conc() and x.v >= 0x80:
-            raise Unsupported("non-ASCII byte in from_utf8_lossy")
+    items = l[lo:hi]
+    for x in items:
         if not x.conc():
             e.assume(z3.ULT(x.z(), 0x80)); e.notes["assume_ascii_utf8"] = True
-    return Agg([e.as_slice(a[0])], 0, "Cow")
+    if not any(x.conc() and x.v >= 0x80 for x in items):
+        return Agg([e.as_slice(a[0])], 0, "Cow")
+    # concrete non-ASCII bytes: decode every maximal run of them as UTF-8, replacing ill-formed subsequences by U+FFFD (std semantics);
+    # symbolic bytes are ASCII (assumed above) and therefore always delimit such runs
+    out, i = [], 0
+    while i < len(items):
+        if items[i].conc() and items[i].v >= 0x80:
+            j = i
+            while j < len(items) and items[j].conc() and items[j].v >= 0x80:
+                j += 1
+            out += [Int(8, 0, b) for b in bytes(x.v for x in items[i:j]).decode("utf-8", "replace").encode("utf-8")]
+            i = j
+        else:
+            out.append(items[i]); i += 1
+    e.notes["utf8_lossy"] = "ill-formed UTF-8 replaced by U+FFFD"
+    return Agg([VecObj(out, "String")], 1, "Cow")
 
 
 @model(r"<Cow<'_, str> as ToString>::to_string$|^Cow::<'_, str>::into_owned$|<Cow<'_, str> as Deref>::deref$")
